@@ -11,7 +11,9 @@ integer exponents) and all rational values.  Helper lemmas: Barril/Proofs/AlgLem
 Vocabulary (AlgLemmas): `dim db qt es` = sum of the exponents of the categories of quantity type `qt`;
 `mag db es` = Π slope(unit)^exp; `baseMag db q v` = v · mag; `Known db q` = every unit of `q` is a table unit
 of the quantity type of its category; `ScaleOnlyQ db q` = no unit of `q` has an offset (the property speaks
-about scale-only units); `unitTotal u es` = the joined exponent of unit `u`.
+about scale-only units); `Scales db q1 q2` = the right operand is not of the simple shape (one entry with
+exponent 1) or neither operand has a unit with an offset: then the matching scales (since the repair of
+`_ConvertMatchingExp` every entry of a derived operand is scaled, offsets or not); `unitTotal u es` = the joined exponent of unit `u`.
 -/
 import Barril.Proofs.AlgLemmas
 import Barril.Props.C01
@@ -97,14 +99,13 @@ theorem opNew_total {db : Db} (hdb : db.AllWF) (op : NewOp) (q1 q2 : Quantity) (
     (∃ q v, opNew db op q1 q2 v1 v2 = .ok (q, v)) ∨ (op ≠ .mul ∧ opNew db op q1 q2 v1 v2 = .error .other) :=
   opNew_ok hdb op q1 q2 v1 v2 h1 h2
 
-/-! ### base magnitudes multiply (scale-only units) -/
+/-! ### base magnitudes multiply (scale-only units; and any units when the right operand is derived) -/
 
 /-- **a*b: the base magnitude is the product** -/
 theorem mul_mag {db : Db} (hdb : db.AllWF) {q1 q2 q : Quantity} {v1 v2 v : Rat} (h1 : Known db q1) (h2 : Known db q2)
-    (s1 : ScaleOnlyQ db q1) (s2 : ScaleOnlyQ db q2) (h : opNew db .mul q1 q2 v1 v2 = .ok (q, v)) :
+    (hs : Scales db q1 q2) (h : opNew db .mul q1 q2 v1 v2 = .ok (q, v)) :
     baseMag db q v = baseMag db q1 v1 * baseMag db q2 v2 := by
-  obtain ⟨w1, w2, M1, M2, hv, _, _, e1, e2, em⟩ :=
-    (opNew_spec hdb (ScaleOnly db) h1 h2 s1 s2 h).2.2.2.2.2.2 (fun _ hu => hu)
+  obtain ⟨w1, w2, M1, M2, hv, _, _, e1, e2, em⟩ := opNew_mag hdb h1 h2 hs h
   simp only [applyNew] at hv
   injection hv with hv
   unfold baseMag
@@ -114,10 +115,9 @@ theorem mul_mag {db : Db} (hdb : db.AllWF) {q1 q2 q : Quantity} {v1 v2 v : Rat} 
 
 /-- **a/b: … the quotient** -/
 theorem div_mag {db : Db} (hdb : db.AllWF) {q1 q2 q : Quantity} {v1 v2 v : Rat} (h1 : Known db q1) (h2 : Known db q2)
-    (s1 : ScaleOnlyQ db q1) (s2 : ScaleOnlyQ db q2) (h : opNew db .div q1 q2 v1 v2 = .ok (q, v)) :
+    (hs : Scales db q1 q2) (h : opNew db .div q1 q2 v1 v2 = .ok (q, v)) :
     baseMag db q v = baseMag db q1 v1 / baseMag db q2 v2 := by
-  obtain ⟨w1, w2, M1, M2, hv, _, hM2, e1, e2, em⟩ :=
-    (opNew_spec hdb (ScaleOnly db) h1 h2 s1 s2 h).2.2.2.2.2.2 (fun _ hu => hu)
+  obtain ⟨w1, w2, M1, M2, hv, _, hM2, e1, e2, em⟩ := opNew_mag hdb h1 h2 hs h
   simp only [applyNew] at hv
   split at hv
   · cases hv
@@ -130,10 +130,9 @@ theorem div_mag {db : Db} (hdb : db.AllWF) {q1 q2 q : Quantity} {v1 v2 v : Rat} 
 
 /-- **a//b: the floor of a quotient whose base magnitude is the quotient of the base magnitudes** -/
 theorem floordiv_mag {db : Db} (hdb : db.AllWF) {q1 q2 q : Quantity} {v1 v2 v : Rat} (h1 : Known db q1) (h2 : Known db q2)
-    (s1 : ScaleOnlyQ db q1) (s2 : ScaleOnlyQ db q2) (h : opNew db .floordiv q1 q2 v1 v2 = .ok (q, v)) :
+    (hs : Scales db q1 q2) (h : opNew db .floordiv q1 q2 v1 v2 = .ok (q, v)) :
     ∃ quot : Rat, v = (quot.floor : Int) ∧ baseMag db q quot = baseMag db q1 v1 / baseMag db q2 v2 := by
-  obtain ⟨w1, w2, M1, M2, hv, _, hM2, e1, e2, em⟩ :=
-    (opNew_spec hdb (ScaleOnly db) h1 h2 s1 s2 h).2.2.2.2.2.2 (fun _ hu => hu)
+  obtain ⟨w1, w2, M1, M2, hv, _, hM2, e1, e2, em⟩ := opNew_mag hdb h1 h2 hs h
   simp only [applyNew] at hv
   split at hv
   · cases hv
@@ -149,28 +148,29 @@ theorem floordiv_mag {db : Db} (hdb : db.AllWF) {q1 q2 q : Quantity} {v1 v2 v : 
 
 /-- **a*b and b*a are physically equal** (same exponents, same base magnitude) -/
 theorem mul_comm_phys {db : Db} (hdb : db.AllWF) {q1 q2 q q' : Quantity} {v1 v2 v v' : Rat}
-    (h1 : Known db q1) (h2 : Known db q2) (s1 : ScaleOnlyQ db q1) (s2 : ScaleOnlyQ db q2)
+    (h1 : Known db q1) (h2 : Known db q2) (s12 : Scales db q1 q2) (s21 : Scales db q2 q1)
     (hab : opNew db .mul q1 q2 v1 v2 = .ok (q, v)) (hba : opNew db .mul q2 q1 v2 v1 = .ok (q', v')) :
     (∀ qt, dim db qt q.entries = dim db qt q'.entries) ∧ baseMag db q v = baseMag db q' v' := by
   refine ⟨fun qt => ?_, ?_⟩
   · rw [mul_dim hdb h1 h2 hab, mul_dim hdb h2 h1 hba, add_comm]
-  · rw [mul_mag hdb h1 h2 s1 s2 hab, mul_mag hdb h2 h1 s2 s1 hba, mul_comm]
+  · rw [mul_mag hdb h1 h2 s12 hab, mul_mag hdb h2 h1 s21 hba, mul_comm]
 
 /-- **(a*b)/b is physically equal to a** -/
 theorem mul_div_cancel_phys {db : Db} (hdb : db.AllWF) {q1 q2 q q' : Quantity} {v1 v2 v v' : Rat}
-    (h1 : Known db q1) (h2 : Known db q2) (s1 : ScaleOnlyQ db q1) (s2 : ScaleOnlyQ db q2) (hv2 : v2 ≠ 0)
+    (h1 : Known db q1) (h2 : Known db q2) (hs : Scales db q1 q2) (hv2 : v2 ≠ 0)
     (hab : opNew db .mul q1 q2 v1 v2 = .ok (q, v)) (hdiv : opNew db .div q q2 v v2 = .ok (q', v')) :
     (∀ qt, dim db qt q'.entries = dim db qt q1.entries) ∧ baseMag db q' v' = baseMag db q1 v1 := by
-  obtain ⟨hk, _, hs⟩ := opNew_closed hdb h1 h2 hab
+  obtain ⟨hk, _, hcl⟩ := opNew_closed hdb h1 h2 hab
+  have hs' : Scales db q q2 := hs.imp id (fun ⟨s1, s2⟩ => ⟨hcl s1 s2, s2⟩)
   refine ⟨fun qt => ?_, ?_⟩
   · rw [div_dim hdb hk h2 hdiv, mul_dim hdb h1 h2 hab]; ring
-  · rw [div_mag hdb hk h2 (hs s1 s2) s2 hdiv, mul_mag hdb h1 h2 s1 s2 hab]
+  · rw [div_mag hdb hk h2 hs' hdiv, mul_mag hdb h1 h2 hs hab]
     have : baseMag db q2 v2 ≠ 0 := mul_ne_zero hv2 (h2.mag_ne_zero hdb)
     field_simp
 
 /-- **a/a is dimensionless**: no entry is left (hence the empty unit string) and the value is 1 -/
 theorem div_self_dimensionless {db : Db} (hdb : db.AllWF) {q q' : Quantity} {v v' : Rat} (hq : Known db q)
-    (hs : ScaleOnlyQ db q) (hv : v ≠ 0) (h : opNew db .div q q v v = .ok (q', v')) :
+    (hs : Scales db q q) (hv : v ≠ 0) (h : opNew db .div q q v v = .ok (q', v')) :
     q'.entries = [] ∧ q'.caption = 0 ∧ v' = 1 := by
   have hent : q'.entries = [] := by
     cases he : q'.entries with
@@ -184,7 +184,7 @@ theorem div_self_dimensionless {db : Db} (hdb : db.AllWF) {q q' : Quantity} {v v
       rw [div_dim hdb hq hq h] at this
       exact this (sub_self _)
   refine ⟨hent, (opNew_closed hdb hq hq h).2.1, ?_⟩
-  have hm := div_mag hdb hq hq hs hs h
+  have hm := div_mag hdb hq hq hs h
   have hb : baseMag db q v ≠ 0 := mul_ne_zero hv (hq.mag_ne_zero hdb)
   rw [div_self hb] at hm
   unfold baseMag at hm
@@ -236,13 +236,20 @@ theorem pow_succ {db : Db} (q : Quantity) (v : Rat) {n : Int} (hn : 1 ≤ n) :
 
 /-- **a ** n: exponents are n times those of a, the base magnitude is the n-th power** (n ≥ 1) -/
 theorem pow_dim_mag {db : Db} (hdb : db.AllWF) {q q' : Quantity} {v v' : Rat} {n : Int} (hn : 1 ≤ n)
-    (hq : Known db q) (hs : ScaleOnlyQ db q) (h : pow db q v n = .ok (q', v')) :
+    (hq : Known db q) (hs : Scales db q q) (h : pow db q v n = .ok (q', v')) :
     (∀ qt, dim db qt q'.entries = n * dim db qt q.entries) ∧ baseMag db q' v' = baseMag db q v ^ n.toNat := by
   unfold pow at h
   obtain ⟨k, rfl⟩ : ∃ k : Nat, n = k + 1 := ⟨(n - 1).toNat, by omega⟩
   have e2 : ((k : Int) + 1 - 1).toNat = k := by omega
   rw [e2] at h
-  obtain ⟨hd, hm, _, _⟩ := powLoop_spec hdb hq hs k q v q' v' hq hs h
+  obtain ⟨hd, hm⟩ : (∀ qt, dim db qt q'.entries = dim db qt q.entries + k * dim db qt q.entries)
+      ∧ baseMag db q' v' = baseMag db q v * baseMag db q v ^ k := by
+    rcases hs with hs | ⟨hs, _⟩
+    · obtain ⟨a, b, _, _⟩ := powLoop_spec hdb (fun _ => True) hq (fun _ _ => trivial) (Or.inl hs) k q v q' v' hq
+        (fun _ _ => trivial) h
+      exact ⟨a, b⟩
+    · obtain ⟨a, b, _, _⟩ := powLoop_spec hdb (ScaleOnly db) hq hs (Or.inr (fun _ hu => hu)) k q v q' v' hq hs h
+      exact ⟨a, b⟩
   refine ⟨fun qt => ?_, ?_⟩
   · rw [hd qt]; ring
   · have : ((k : Int) + 1).toNat = k + 1 := by omega
@@ -255,12 +262,12 @@ theorem posc_mul_dim {q1 q2 q : Quantity} {v1 v2 v : Rat} (h1 : Known poscDb q1)
     dim poscDb qt q.entries = dim poscDb qt q1.entries + dim poscDb qt q2.entries := mul_dim posc_allWF h1 h2 h qt
 
 theorem posc_mul_mag {q1 q2 q : Quantity} {v1 v2 v : Rat} (h1 : Known poscDb q1) (h2 : Known poscDb q2)
-    (s1 : ScaleOnlyQ poscDb q1) (s2 : ScaleOnlyQ poscDb q2) (h : opNew poscDb .mul q1 q2 v1 v2 = .ok (q, v)) :
-    baseMag poscDb q v = baseMag poscDb q1 v1 * baseMag poscDb q2 v2 := mul_mag posc_allWF h1 h2 s1 s2 h
+    (hs : Scales poscDb q1 q2) (h : opNew poscDb .mul q1 q2 v1 v2 = .ok (q, v)) :
+    baseMag poscDb q v = baseMag poscDb q1 v1 * baseMag poscDb q2 v2 := mul_mag posc_allWF h1 h2 hs h
 
 theorem posc_div_mag {q1 q2 q : Quantity} {v1 v2 v : Rat} (h1 : Known poscDb q1) (h2 : Known poscDb q2)
-    (s1 : ScaleOnlyQ poscDb q1) (s2 : ScaleOnlyQ poscDb q2) (h : opNew poscDb .div q1 q2 v1 v2 = .ok (q, v)) :
-    baseMag poscDb q v = baseMag poscDb q1 v1 / baseMag poscDb q2 v2 := div_mag posc_allWF h1 h2 s1 s2 h
+    (hs : Scales poscDb q1 q2) (h : opNew poscDb .div q1 q2 v1 v2 = .ok (q, v)) :
+    baseMag poscDb q v = baseMag poscDb q1 v1 / baseMag poscDb q2 v2 := div_mag posc_allWF h1 h2 hs h
 
 /-! ### non-vacuity: concrete operands of the POSC table meet the hypotheses; the model computes what the
 repaired code computes (exponent honoured by the matching, both operand orders) -/
@@ -291,6 +298,10 @@ example : opNew poscDb .div qM qM 5 5 = .ok (⟨[], 0, true⟩, 1) := by decide 
 example : opNew poscDb .floordiv qM qCm (R 75 10) 200 = .ok (⟨[], 0, true⟩, 3) := by decide +kernel
 example : opNew poscDb .div qM qS 1 0 = .error .other := by decide +kernel
 example : pow poscDb qM 2 3 = .ok (⟨[⟨S "length", S "m", 3⟩], 0, true⟩, 8) := by decide +kernel
+-- a unit with an offset inside a derived right operand is scaled (K → degC: ratio 1), not shifted
+example : opNew poscDb .mul ⟨[⟨S "temperature", S "degC", 1⟩], 0, false⟩
+    ⟨[⟨S "length", S "m", 1⟩, ⟨S "temperature", S "K", 1⟩], 0, true⟩ 2 3
+    = .ok (⟨[⟨S "temperature", S "degC", 2⟩, ⟨S "length", S "m", 1⟩], 0, true⟩, 6) := by decide +kernel
 end examples
 
 end Barril.Alg
